@@ -24,6 +24,7 @@ type Scenario struct {
 	Timed           bool          `json:"timed"`
 	TimePerBlock    time.Duration `json:"time_per_block"`
 	MaxTimePerBlock time.Duration `json:"max_time_per_block"`
+	OneShotSub      bool          `json:"one_shot_sub,omitempty"` // OnNewTransaction is called at most once per SubscribeForTxs call and never without one (config.go: "single-use")
 	TimeVar         bool          `json:"time_var,omitempty"` // TimePerBlock / MaxTimePerBlock callbacks answer differently at odd and even ledger heights
 	TSIncrement     uint64        `json:"ts_increment"`
 	EpochUnix       int64         `json:"epoch_unix"`
@@ -1351,6 +1352,9 @@ func (n *Node) appKey() uint64 {
 	}
 	if n.foreignEarly {
 		s.b(0xe3)
+	}
+	if n.subActive && n.sc().OneShotSub {
+		s.b(0xe4)
 	}
 	s.u64(uint64(n.permMode))
 	s.u64(uint64(len(n.pool)))
